@@ -43,12 +43,12 @@ Inductive chain (J : list row) (f : row -> bool) (lim : Z) : Z -> Z -> list row 
     is_gap_fill fr a h -> chain J f lim h c rest -> chain J f lim a c (fr :: rest).
 
 (* what the replay loop needs of the recovered rows: ascending from p, and every row that is
-   retransmitted is an original send whose predecessor number is not missing *)
+   retransmitted was journaled without tag 43 / 122 in its body *)
 Fixpoint rows_ok (f : row -> bool) (p : Z) (rs : list row) : Prop :=
   match rs with
   | [] => True
   | r :: rest =>
-      p <= r_seq r /\ (replayable f r = true -> r_seq r = p /\ clean r = true) /\ rows_ok f (r_seq r + 1) rest
+      p <= r_seq r /\ (replayable f r = true -> clean r = true) /\ rows_ok f (r_seq r + 1) rest
   end.
 
 (* ------------------------------------------------------------------ strings, tags *)
@@ -175,43 +175,54 @@ Proof. unfold same_but, sent; cbn. auto 10. Qed.
 Lemma same_but_note n s : same_but s (note_call n s) [].
 Proof. unfold same_but, note_call; cbn. rewrite !app_nil_r. auto 10. Qed.
 
-Definition pre (J : list row) (f : row -> bool) (c : Z) (rs : list row) (gfb gfe : Z) : Prop :=
+(* loop invariant.  J = the journal, hi = one past the last requested already-sent number,
+   rs = the recovered rows not yet visited, p = max gfb gfe = lower bound of their numbers:
+   [gfb, p) are numbers to be gap-filled, rs holds every journaled row numbered in [p, hi) *)
+Definition pre (J : list row) (f : row -> bool) (c hi : Z) (rs : list row) (gfb gfe : Z) : Prop :=
   rows_ok f (Z.max gfb gfe) rs
-  /\ (forall r, In r rs -> In r J /\ codec_row r = true /\ r_seq r < c)
-  /\ (forall r, In r J -> Z.max gfb gfe <= r_seq r -> In r rs)
+  /\ (forall r, In r rs -> In r J /\ codec_row r = true /\ r_seq r < hi)
+  /\ (forall r, In r J -> Z.max gfb gfe <= r_seq r < hi -> In r rs)
   /\ (forall n, gfb <= n < Z.max gfb gfe -> skipped J f n)
-  /\ Z.max gfb gfe <= c.
+  /\ gfe <= c /\ hi <= c.
 
-Lemma pre_skip J f c r rest gfb gfe :
-  pre J f c (r :: rest) gfb gfe -> replayable f r = false -> pre J f c rest gfb (r_seq r + 1).
+Lemma pre_skip J f c hi r rest gfb gfe :
+  pre J f c hi (r :: rest) gfb gfe -> replayable f r = false -> pre J f c hi rest gfb (r_seq r + 1).
 Proof.
-  intros (H2 & H3 & H4 & H5 & H6) Hr. cbn [rows_ok] in H2. destruct H2 as (H2a & _ & H2c).
+  intros (H2 & H3 & H4 & H5 & H6 & H7) Hr. cbn [rows_ok] in H2. destruct H2 as (H2a & _ & H2c).
   assert (Hmax : Z.max gfb (r_seq r + 1) = r_seq r + 1) by lia.
   pose proof (rows_ok_lb _ _ _ H2c) as Hlb.
+  destruct (H3 r (or_introl eq_refl)) as (_ & _ & Hc).
   unfold pre. rewrite Hmax.
   split; [exact H2c|]. split; [intros x Hx; apply H3; right; exact Hx|].
   split; [intros x Hx Hge; destruct (H4 x Hx ltac:(lia)) as [<-|Hin]; [lia|exact Hin]|].
-  split.
-  - intros n Hn x Hx Hsx. destruct (Z.ltb_spec n (Z.max gfb gfe)) as [Hlt|Hge].
-    + apply (H5 n ltac:(lia) x Hx Hsx).
-    + destruct (H4 x Hx ltac:(lia)) as [<-|Hin]; [exact Hr|]. specialize (Hlb _ Hin). lia.
-  - destruct (H3 r (or_introl eq_refl)) as (_ & _ & Hc). lia.
+  split; [|lia].
+  intros n Hn x Hx Hsx. destruct (Z.ltb_spec n (Z.max gfb gfe)) as [Hlt|Hge].
+  - apply (H5 n ltac:(lia) x Hx Hsx).
+  - destruct (H4 x Hx ltac:(lia)) as [<-|Hin]; [exact Hr|]. specialize (Hlb _ Hin). lia.
 Qed.
 
-Lemma pre_replay J f c r rest gfb gfe :
-  pre J f c (r :: rest) gfb gfe -> replayable f r = true ->
-  pre J f c rest (r_seq r + 1) gfe
-  /\ r_seq r = Z.max gfb gfe /\ clean r = true /\ In r J /\ codec_row r = true.
+(* at a replayed row: every number from gfb up to it is to be gap-filled *)
+Lemma pre_replay J f c hi r rest gfb gfe g :
+  pre J f c hi (r :: rest) gfb gfe -> replayable f r = true -> g <= r_seq r ->
+  pre J f c hi rest (r_seq r + 1) g
+  /\ gfb <= r_seq r /\ (forall n, gfb <= n < r_seq r -> skipped J f n)
+  /\ clean r = true /\ In r J /\ codec_row r = true /\ r_seq r < hi.
 Proof.
-  intros (H2 & H3 & H4 & H5 & H6) Hr. cbn [rows_ok] in H2. destruct H2 as (H2a & H2b & H2c).
-  destruct (H2b Hr) as (Hp & Hcl).
-  assert (Hmax : Z.max (r_seq r + 1) gfe = r_seq r + 1) by lia.
+  intros (H2 & H3 & H4 & H5 & H6 & H7) Hr Hg. cbn [rows_ok] in H2. destruct H2 as (H2a & H2b & H2c).
+  pose proof (H2b Hr) as Hcl.
+  assert (Hmax : Z.max (r_seq r + 1) g = r_seq r + 1) by lia.
   destruct (H3 r (or_introl eq_refl)) as (HJ & Hcr & Hc).
-  split; [|auto]. unfold pre. rewrite Hmax.
-  split; [exact H2c|].
-  split; [intros x Hx; apply H3; right; exact Hx|].
-  split; [intros x Hx Hge; destruct (H4 x Hx ltac:(lia)) as [<-|Hin]; [lia|exact Hin]|].
-  split; [intros n Hn; lia|lia].
+  pose proof (rows_ok_lb _ _ _ H2c) as Hlb.
+  split.
+  - unfold pre. rewrite Hmax.
+    split; [exact H2c|].
+    split; [intros x Hx; apply H3; right; exact Hx|].
+    split; [intros x Hx Hge; destruct (H4 x Hx ltac:(lia)) as [<-|Hin]; [lia|exact Hin]|].
+    split; [intros n Hn; lia|lia].
+  - split; [lia|]. split; [|auto].
+    intros n Hn x Hx Hsx. destruct (Z.ltb_spec n (Z.max gfb gfe)) as [Hlt|Hge].
+    + apply (H5 n ltac:(lia) x Hx Hsx).
+    + destruct (H4 x Hx ltac:(lia)) as [<-|Hin]; [lia|]. specialize (Hlb _ Hin). lia.
 Qed.
 
 Lemma copy_is_copy r k : is_copy_of r (copy_frame r k).
@@ -219,61 +230,66 @@ Proof. unfold is_copy_of, copy_frame; cbn; auto. Qed.
 Lemma gap_is_gap a h k : is_gap_fill (gap_frame a h k) a h.
 Proof. unfold is_gap_fill, gap_frame; cbn; auto. Qed.
 
-Lemma loop_ok J f lim c : forall rs gfb gfe s,
-  sending_ok s -> pre J f c rs gfb gfe ->
+Lemma loop_ok J f lim c hi : forall rs gfb gfe s,
+  sending_ok s -> pre J f c hi rs gfb gfe ->
   exists gfb' gfe' s' W,
     replay_loop f rs gfb gfe s = LOk gfb' gfe' s'
     /\ same_but s s' W
     /\ chain J f lim gfb gfb' W
-    /\ (forall n, gfb' <= n < Z.max gfb' gfe' -> skipped J f n)
-    /\ (forall r, In r J -> r_seq r < Z.max gfb' gfe')
-    /\ Z.max gfb' gfe' <= c.
+    /\ (forall n, gfb' <= n < hi -> skipped J f n)
+    /\ gfb <= gfb' <= Z.max gfb hi /\ gfe' <= c.
 Proof.
   induction rs as [|r rest IH]; intros gfb gfe s Hs Hpre.
-  - exists gfb, gfe, s, []. destruct Hpre as (H2 & H3 & H4 & H5 & H6).
+  - exists gfb, gfe, s, []. destruct Hpre as (H2 & H3 & H4 & H5 & H6 & H7).
     split; [reflexivity|]. split; [apply same_but_refl|]. split; [constructor|].
-    split; [exact H5|]. split; [|exact H6].
-    intros x Hx. destruct (Z.ltb_spec (r_seq x) (Z.max gfb gfe)); [assumption|]. destruct (H4 x Hx); assumption.
+    split; [|lia].
+    intros n Hn x Hx Hsx. destruct (Z.ltb_spec n (Z.max gfb gfe)) as [Hlt|Hge].
+    + apply (H5 n ltac:(lia) x Hx Hsx).
+    + destruct (H4 x Hx ltac:(lia)).
   - cbn [replay_loop]. destruct (is_sess_type (r_type r)) eqn:Hst.
     + assert (Hr : replayable f r = false) by (unfold replayable; rewrite Hst; reflexivity).
-      exact (IH gfb (r_seq r + 1) s Hs (pre_skip _ _ _ _ _ _ _ Hpre Hr)).
+      exact (IH gfb (r_seq r + 1) s Hs (pre_skip _ _ _ _ _ _ _ _ Hpre Hr)).
     + set (s0 := note_call (r_seq r) s).
       assert (Hs0 : sending_ok s0) by exact Hs.
       destruct (f r) eqn:Hf; cbn [negb].
       2:{ assert (Hr : replayable f r = false) by (unfold replayable; rewrite Hf, andb_false_r; reflexivity).
-          destruct (IH gfb (r_seq r + 1) s0 Hs0 (pre_skip _ _ _ _ _ _ _ Hpre Hr)) as (g1 & g2 & s' & W & E & Hsb & rest').
+          destruct (IH gfb (r_seq r + 1) s0 Hs0 (pre_skip _ _ _ _ _ _ _ _ Hpre Hr)) as (g1 & g2 & s' & W & E & Hsb & rest').
           exists g1, g2, s', W. split; [exact E|]. split; [|exact rest'].
           exact (same_but_trans _ _ _ _ _ (same_but_note (r_seq r) s) Hsb). }
       assert (Hr : replayable f r = true) by (unfold replayable; rewrite Hst, Hf; reflexivity).
-      pose proof Hpre as (_ & _ & _ & Hsk & _).
-      destruct (pre_replay _ _ _ _ _ _ _ Hpre Hr) as (Hpre' & Hp & Hcl & HJ & Hcr).
+      cbv zeta. set (g := if gfb <? r_seq r then r_seq r else gfe).
+      assert (Hp0 : Z.max gfb gfe <= r_seq r) by (destruct Hpre as ((Hp & _) & _); exact Hp).
+      assert (Hg : g <= r_seq r) by (unfold g; destruct (gfb <? r_seq r); lia).
+      destruct (pre_replay _ _ _ _ _ _ _ _ g Hpre Hr Hg) as (Hpre' & Hle & Hsk & Hcl & HJ & Hcr & Hhi).
       rewrite (mk_replay_clean _ Hcl).
-      destruct (gfb <? gfe) eqn:Hcmp.
-      * set (g := gap_frame gfb gfe (clock s0 + 1)). set (s1 := sent g s0).
-        rewrite (send_gap_fill gfb gfe s0 Hs0). fold g. fold s1.
+      destruct (gfb <? g) eqn:Hcmp.
+      * (* gap fill [gfb, r_seq r) first *)
+        assert (Eg : g = r_seq r) by (unfold g in *; destruct (gfb <? r_seq r) eqn:E; lia).
+        set (gf := gap_frame gfb g (clock s0 + 1)). set (s1 := sent gf s0).
+        rewrite (send_gap_fill gfb g s0 Hs0). fold gf. fold s1.
         assert (Hs1 : sending_ok s1) by exact Hs.
         set (cp := copy_frame r (clock s1 + 1)). set (s2 := sent cp s1).
         rewrite (send_replay r s1 Hs1 Hst Hcl Hcr). fold cp. fold s2.
         assert (Hs2 : sending_ok s2) by exact Hs.
-        destruct (IH (r_seq r + 1) gfe s2 Hs2 Hpre') as (g1 & g2 & s' & W & E & Hsb & Hch & rest').
-        exists g1, g2, s', (g :: cp :: W). split; [exact E|]. split; [|split; [|exact rest']].
-        -- change (g :: cp :: W) with ([] ++ [g] ++ [cp] ++ W).
+        destruct (IH (r_seq r + 1) g s2 Hs2 Hpre') as (g1 & g2 & s' & W & E & Hsb & Hch & Hsk' & Hb' & He').
+        exists g1, g2, s', (gf :: cp :: W). split; [exact E|]. split; [|split; [|split; [exact Hsk'|split; [lia|exact He']]]].
+        -- change (gf :: cp :: W) with ([] ++ [gf] ++ [cp] ++ W).
            eapply same_but_trans; [apply same_but_note|]. eapply same_but_trans; [apply same_but_sent|].
            eapply same_but_trans; [apply same_but_sent|]. exact Hsb.
-        -- apply chain_gap with (h := gfe); [lia| | |apply gap_is_gap|].
+        -- apply chain_gap with (h := g); [lia| | |apply gap_is_gap|].
            ++ intros n Hn. apply Hsk. lia.
            ++ right. intros Hskip. specialize (Hskip r HJ ltac:(lia)). congruence.
-           ++ replace gfe with (r_seq r) by lia.
-              apply chain_replay with (r := r); auto; apply copy_is_copy.
-      * set (cp := copy_frame r (clock s0 + 1)). set (s2 := sent cp s0).
+           ++ rewrite Eg. apply chain_replay with (r := r); auto; apply copy_is_copy.
+      * (* gfb = r_seq r: nothing pending *)
+        assert (Eb : gfb = r_seq r) by (unfold g in *; destruct (gfb <? r_seq r) eqn:E; lia).
+        set (cp := copy_frame r (clock s0 + 1)). set (s2 := sent cp s0).
         rewrite (send_replay r s0 Hs0 Hst Hcl Hcr). fold cp. fold s2.
         assert (Hs2 : sending_ok s2) by exact Hs.
-        destruct (IH (r_seq r + 1) gfe s2 Hs2 Hpre') as (g1 & g2 & s' & W & E & Hsb & Hch & rest').
-        exists g1, g2, s', (cp :: W). split; [exact E|]. split; [|split; [|exact rest']].
+        destruct (IH (r_seq r + 1) g s2 Hs2 Hpre') as (g1 & g2 & s' & W & E & Hsb & Hch & Hsk' & Hb' & He').
+        exists g1, g2, s', (cp :: W). split; [exact E|]. split; [|split; [|split; [exact Hsk'|split; [lia|exact He']]]].
         -- change (cp :: W) with ([] ++ [cp] ++ W).
            eapply same_but_trans; [apply same_but_note|]. eapply same_but_trans; [apply same_but_sent|]. exact Hsb.
-        -- replace gfb with (r_seq r) by lia.
-           apply chain_replay with (r := r); auto; apply copy_is_copy.
+        -- rewrite Eb. apply chain_replay with (r := r); auto; apply copy_is_copy.
 Qed.
 
 (* ------------------------------------------------------------------ chain facts *)
@@ -371,46 +387,50 @@ Definition journal_ok (s : st) : Prop :=
   Forall (fun r => r_seq r < nout s /\ codec_row r = true) (rows s)   (* rows written by send_msg below the counter *)
   /\ nout s <= INT64_MAX.
 
+
+Definition eff_end (e0 : Z) : Z := if e0 =? 0 then sys_maxsize else e0.
+
 Lemma body_ok f s b e0 :
   sending_ok s -> journal_ok s ->
-  1 <= b <= nout s -> fits_int64 e0 = true -> (e0 = 0 \/ nout s - 1 <= e0 \/ b = nout s) ->
-  rows_ok f b (recover b (if e0 =? 0 then sys_maxsize else e0) (rows s)) ->
+  1 <= b <= nout s -> fits_int64 e0 = true ->
+  rows_ok f b (recover b (eff_end e0) (rows s)) ->
+  let hi := Z.max b (Z.min (nout s) (eff_end e0 + 1)) in
   exists W s', resend_body f b e0 s = (s', None)
-    /\ wire s' = wire s ++ W /\ chain (rows s) f (nout s) b (nout s) W
+    /\ wire s' = wire s ++ W /\ chain (rows s) f hi b hi W
     /\ nout s' = nout s /\ sout s' = sout s /\ rows s' = rows s
     /\ cstate s' = (if cstate s =? ST_AWAITING then cstate s else ST_ACTIVE).
 Proof.
-  intros Hs (HJ & Hmax) Hb He0 Hcov Hok.
-  set (J := rows s) in *. set (c := nout s) in *.
-  set (e := if e0 =? 0 then sys_maxsize else e0) in *.
+  intros Hs (HJ & Hmax) Hb He0 Hok hi.
+  set (J := rows s) in *. set (c := nout s) in *. set (e := eff_end e0) in *.
+  set (last := Z.min c (e + 1)) in *.
   rewrite Forall_forall in HJ.
   assert (Hsm : sys_maxsize = INT64_MAX) by reflexivity.
-  unfold resend_body. fold e. fold c. fold J.
+  unfold resend_body. fold (eff_end e0). fold e. fold c. fold J.
   assert (Hfb : fits_int64 b = true) by (unfold fits_int64, INT64_MIN, INT64_MAX in *; lia).
   assert (Hfe : fits_int64 e = true).
-  { unfold e. destruct (e0 =? 0); [rewrite Hsm; reflexivity|exact He0]. }
+  { unfold e, eff_end. destruct (e0 =? 0); [rewrite Hsm; reflexivity|exact He0]. }
   rewrite Hfb, Hfe. cbn [andb negb].
-  assert (Hpre : pre J f c (recover b e J) b b).
-  { unfold pre. rewrite Z.max_id. split; [exact Hok|split; [|split; [|split]]].
-    - intros r Hr. apply in_recover in Hr as [Hr _]. destruct (HJ _ Hr). auto.
-    - intros r Hr Hge. apply in_recover. split; [exact Hr|]. destruct (HJ _ Hr) as [Hlt _].
-      unfold e. destruct (e0 =? 0) eqn:E0; [rewrite Hsm; lia|]. lia.
+  assert (Hpre : pre J f c last (recover b e J) b b).
+  { unfold pre. rewrite Z.max_id. split; [exact Hok|split; [|split; [|split; [|split]]]].
+    - intros r Hr. apply in_recover in Hr as [Hr Hrg]. destruct (HJ _ Hr). unfold last. repeat split; auto; lia.
+    - intros r Hr Hge. apply in_recover. split; [exact Hr|]. unfold last in Hge. lia.
     - intros n Hn. lia.
-    - lia. }
-  destruct (loop_ok J f c c _ _ _ _ Hs Hpre) as (g1 & g2 & s2 & W & E & Hsb & Hch & Hsk & Hall & Hle).
+    - lia.
+    - unfold last. lia. }
+  destruct (loop_ok J f hi c last _ _ _ _ Hs Hpre) as (g1 & g2 & s2 & W & E & Hsb & Hch & Hsk & Hg1 & Hg2).
   rewrite E. destruct Hsb as (Hc2 & Hn2 & Hso2 & Hr2 & Hw2 & Hst2).
-  destruct (g2 <=? c) eqn:Hg2; [|lia]. cbn [negb].
+  destruct (g2 <=? c) eqn:Hg2'; [|lia]. cbn [negb]. cbv zeta. fold last.
   assert (Hs2 : sending_ok s2) by (unfold sending_ok; rewrite Hc2; exact Hs).
   assert (Htail : exists W' s3,
-            (if g1 <? c then send_msg (gap_fill_msg g1 c) s2 else Ok s2) = Ok s3
-            /\ same_but s2 s3 W' /\ chain J f c g1 c W').
-  { destruct (g1 <? c) eqn:Hlt.
-    - eexists [_], _. split; [apply send_gap_fill; exact Hs2|]. split; [apply same_but_sent|].
-      apply chain_gap with (h := c); [lia| |left; reflexivity|apply gap_is_gap|constructor].
-      intros n Hn. destruct (Z.ltb_spec n (Z.max g1 g2)); [apply Hsk; lia|].
-      intros r Hr Hseq. specialize (Hall _ Hr). lia.
+            (if g1 <? last then send_msg (gap_fill_msg g1 last) s2 else Ok s2) = Ok s3
+            /\ same_but s2 s3 W' /\ chain J f hi g1 hi W').
+  { destruct (g1 <? last) eqn:Hlt.
+    - assert (Ehi : hi = last) by (unfold hi; fold last; lia).
+      eexists [_], _. split; [apply send_gap_fill; exact Hs2|]. split; [apply same_but_sent|].
+      rewrite Ehi. apply chain_gap with (h := last); [lia| |left; reflexivity|apply gap_is_gap|constructor].
+      intros n Hn. apply Hsk. lia.
     - exists [], s2. split; [reflexivity|]. split; [apply same_but_refl|].
-      replace g1 with c by lia. constructor. }
+      replace g1 with hi by (unfold hi; fold last; lia). constructor. }
   destruct Htail as (W' & s3 & E3 & (Hc3 & Hn3 & Hso3 & Hr3 & Hw3 & Hst3) & Hch3). rewrite E3.
   pose proof (chain_app _ _ _ _ _ _ _ _ Hch Hch3) as Hchain.
   exists (W ++ W'). eexists. split; [reflexivity|].
@@ -423,11 +443,12 @@ Qed.
 Lemma resend_partial f s bs es b0 b e0 :
   py_int bs = Some b0 -> clamp1 b0 = b -> py_int es = Some e0 ->
   (cstate s = ST_ACTIVE \/ cstate s = ST_AWAITING) -> journal_ok s ->
-  1 <= b <= nout s -> fits_int64 e0 = true -> (e0 = 0 \/ nout s - 1 <= e0 \/ b = nout s) ->
-  rows_ok f b (recover b (if e0 =? 0 then sys_maxsize else e0) (rows s)) ->
+  b <= nout s -> fits_int64 e0 = true ->
+  rows_ok f b (recover b (eff_end e0) (rows s)) ->
   handler_correct f s (Some bs) (Some es).
 Proof.
-  intros Hpb Hcl Hpe Hst Hj Hb He0 Hcov Hok.
+  intros Hpb Hcl Hpe Hst Hj Hb He0 Hok.
+  assert (H1 : 1 <= b) by (subst b; unfold clamp1; destruct (b0 <? 1) eqn:E; lia).
   unfold handler_correct, process_resend, requested_range. rewrite Hpb, Hpe. cbv zeta. rewrite Hcl.
   set (sa := if cstate s =? ST_AWAITING then s else state_set ST_HANDLING s).
   assert (Hsa : sending_ok sa /\ rows sa = rows s /\ nout sa = nout s /\ sout sa = sout s /\ wire sa = wire s
@@ -435,44 +456,30 @@ Proof.
   { unfold sa. destruct Hst as [H|H]; rewrite H; cbn; unfold sending_ok; cbn; rewrite ?H; auto 10. }
   destruct Hsa as (Hs & Er & En & Eso & Ew & Ec).
   assert (Hja : journal_ok sa) by (unfold journal_ok; rewrite Er, En; exact Hj).
-  rewrite <- Er in Hok. rewrite <- En in Hcov, Hb.
-  destruct (body_ok f sa b e0 Hs Hja Hb He0 Hcov Hok) as (W & s' & E & Hw & Hch & Hn & Hso & Hr & Hc).
+  rewrite <- Er in Hok. rewrite <- En in Hb.
+  destruct (body_ok f sa b e0 Hs Hja (conj H1 Hb) He0 Hok) as (W & s' & E & Hw & Hch & Hn & Hso & Hr & Hc).
   rewrite E. cbn [fst]. rewrite Er, En, ?Ew, ?Eso in *. clear E.
+  destruct Hj as (_ & Hmax). assert (Hsm : sys_maxsize = INT64_MAX) by reflexivity.
   exists W. split; [exact Hw|]. split; [|rewrite Hc, Ec; auto].
   destruct ((1 <=? b) && ((e0 =? 0) || (b <=? e0))) eqn:Hvalid.
-  - assert (Hhi : Z.max b (if e0 =? 0 then nout s else Z.min (e0 + 1) (nout s)) = nout s).
-    { destruct (e0 =? 0) eqn:E0; lia. }
+  - assert (Hhi : Z.max b (if e0 =? 0 then nout s else Z.min (e0 + 1) (nout s))
+                  = Z.max b (Z.min (nout s) (eff_end e0 + 1))).
+    { unfold eff_end. destruct (e0 =? 0) eqn:E0; [rewrite Hsm|]; lia. }
     rewrite Hhi. exact Hch.
-  - assert (Hbc : b = nout s) by lia. rewrite Hbc in Hch. exact (chain_empty _ _ _ _ _ Hch).
+  - assert (Hhi : Z.max b (Z.min (nout s) (eff_end e0 + 1)) = b).
+    { unfold eff_end. destruct (e0 =? 0) eqn:E0; lia. }
+    rewrite Hhi in Hch. exact (chain_empty _ _ _ _ _ Hch).
 Qed.
 
 (* ------------------------------------------------------------------ known-finding class predicates
    (decidable from the request, the replay filter and the pre-state; mirrored by harness/c06.py) *)
 
-Definition eff_end (e0 : Z) : Z := if e0 =? 0 then sys_maxsize else e0.
 Definition in_req_range (b e : Z) (r : row) : bool := (b <=? r_seq r) && (r_seq r <=? e).
 
-(* tag 7 / 16 absent, not an int() literal, or outside 64 bits *)
-Definition k_unparsable (bs es : option str) : bool :=
-  match bs, es with
-  | Some bs, Some es =>
-      match py_int bs, py_int es with
-      | Some b, Some e0 => negb (fits_int64 (clamp1 b) && fits_int64 (eff_end e0))
-      | _, _ => true
-      end
-  | _, _ => true
-  end.
-Definition k_begin_beyond (s : st) (b : Z) : bool := nout s <? b.
-(* EndSeqNo bounded below the last sent number *)
-Definition k_bounded_end (s : st) (b e0 : Z) : bool := negb (e0 =? 0) && (e0 <? nout s - 1) && (b <? nout s).
 (* a replayed message in range was journaled with tag 43 or 122 in its body (an application that
-   sets PossDupFlag=N or OrigSendingTime itself; the handler no longer leaves copies behind) *)
+   sets PossDupFlag=N or OrigSendingTime itself; the handler leaves no copies behind) *)
 Definition k_row_carries_possdup_tags (f : row -> bool) (s : st) (b e0 : Z) : bool :=
   existsb (fun r => in_req_range b (eff_end e0) r && replayable f r && negb (clean r)) (rows s).
-(* a replayed message in range whose predecessor number (still in range) is missing from the journal *)
-Definition k_hole_before_replayed (f : row -> bool) (s : st) (b e0 : Z) : bool :=
-  existsb (fun r => in_req_range b (eff_end e0) r && replayable f r && (b <? r_seq r)
-                    && negb (has_key (r_seq r - 1) (rows s))) (rows s).
 
 (* strictly ascending from p *)
 Fixpoint asc (p : Z) (rs : list row) : Prop :=
@@ -522,20 +529,14 @@ Proof.
   destruct Ha as [H1 H2]. destruct Hin as [<-|Hin]; [lia|]. specialize (IH _ H2 _ Hin). lia.
 Qed.
 
+
 Lemma asc_rows_ok f : forall rs p, asc p rs ->
-  (forall r, In r rs -> replayable f r = true -> clean r = true) ->
-  (forall r, In r rs -> replayable f r = true -> r_seq r = p \/ exists x, In x rs /\ r_seq x = r_seq r - 1) ->
-  rows_ok f p rs.
+  (forall r, In r rs -> replayable f r = true -> clean r = true) -> rows_ok f p rs.
 Proof.
-  induction rs as [|r rest IH]; intros p Ha Hcl Hpred; cbn; [auto|].
-  destruct Ha as [Hp Ha]. pose proof (asc_lb _ _ Ha) as Hlb. split; [exact Hp|]. split.
-  - intros Hr. split; [|apply Hcl; [left; reflexivity|exact Hr]].
-    destruct (Hpred r (or_introl eq_refl) Hr) as [E|(x & [<-|Hx] & Ex)]; [exact E|lia|].
-    specialize (Hlb _ Hx). lia.
-  - apply IH; [exact Ha|intros x Hx; apply Hcl; right; exact Hx|].
-    intros x Hx Hr. specialize (Hlb _ Hx).
-    destruct (Hpred x (or_intror Hx) Hr) as [E|(y & [<-|Hy] & Ey)]; [lia|left; lia|].
-    right. exists y. split; assumption.
+  induction rs as [|r rest IH]; intros p Ha Hcl; cbn; [auto|].
+  destruct Ha as [Hp Ha]. split; [exact Hp|]. split.
+  - apply Hcl. left; reflexivity.
+  - apply IH; [exact Ha|intros x Hx; apply Hcl; right; exact Hx].
 Qed.
 
 Lemma existsb_false {A} (p : A -> bool) l : existsb p l = false -> forall x, In x l -> p x = false.
@@ -544,76 +545,15 @@ Proof.
   assert (existsb p l = true) by (apply existsb_exists; eauto). congruence.
 Qed.
 
-(* outside the two journal classes the recovered rows are what the loop handles correctly *)
+(* outside the journal class the recovered rows are what the loop handles correctly *)
 Lemma classes_rows_ok f s b e0 :
-  NoDup (map r_seq (rows s)) ->
-  k_row_carries_possdup_tags f s b e0 = false -> k_hole_before_replayed f s b e0 = false ->
+  NoDup (map r_seq (rows s)) -> k_row_carries_possdup_tags f s b e0 = false ->
   rows_ok f b (recover b (eff_end e0) (rows s)).
 Proof.
-  intros Hnd Hl Hh. apply asc_rows_ok; [apply recover_asc; exact Hnd| |].
-  - intros r Hr Hrep. apply in_recover in Hr as [Hin Hrg].
-    pose proof (existsb_false _ _ Hl r Hin) as H. cbn beta in H. rewrite Hrep in H.
-    unfold in_req_range in H. destruct (clean r); [reflexivity|]. cbn in H. lia.
-  - intros r Hr Hrep. apply in_recover in Hr as [Hin Hrg].
-    pose proof (existsb_false _ _ Hh r Hin) as H. cbn beta in H. rewrite Hrep in H.
-    unfold in_req_range in H.
-    destruct (b <? r_seq r) eqn:Hb; [|left; lia]. right.
-    destruct (has_key (r_seq r - 1) (rows s)) eqn:Hk; [|cbn in H; lia].
-    unfold has_key in Hk. apply existsb_exists in Hk as (x & Hx & Ex).
-    exists x. split; [|lia]. apply in_recover. split; [exact Hx|lia].
-Qed.
-
-(* the partial theorem with exactly the negated class predicates as hypotheses *)
-Lemma resend_partial_classes f s bs es b0 e0 :
-  py_int bs = Some b0 -> py_int es = Some e0 ->
-  let b := clamp1 b0 in
-  (cstate s = ST_ACTIVE \/ cstate s = ST_AWAITING) ->
-  journal_ok s -> NoDup (map r_seq (rows s)) ->
-  k_unparsable (Some bs) (Some es) = false ->
-  k_begin_beyond s b = false -> k_bounded_end s b e0 = false ->
-  k_row_carries_possdup_tags f s b e0 = false -> k_hole_before_replayed f s b e0 = false ->
-  handler_correct f s (Some bs) (Some es).
-Proof.
-  intros Hpb Hpe b Hst Hj Hnd Hu Hk2 Hk3 Hk4 Hk5.
-  unfold k_unparsable in Hu. rewrite Hpb, Hpe in Hu. apply negb_false_iff, andb_true_iff in Hu as [Hfb Hfe].
-  unfold k_begin_beyond in Hk2. unfold k_bounded_end in Hk3.
-  assert (H1 : 1 <= b) by (unfold b, clamp1; destruct (b0 <? 1) eqn:E; lia).
-  apply (resend_partial f s bs es b0 b e0 Hpb eq_refl Hpe Hst Hj); try lia.
-  - unfold eff_end in Hfe. destruct (e0 =? 0) eqn:E; [|exact Hfe].
-    replace e0 with 0 by lia. reflexivity.
-  - exact (classes_rows_ok f s b e0 Hnd Hk4 Hk5).
-Qed.
-
-(* answering a request leaves a state in which every hypothesis above still holds: a second (third, ...)
-   request over the same or any other range is answered correctly too *)
-Lemma resend_repeatable f s bs es b0 e0 f2 bs2 es2 c0 e2 :
-  py_int bs = Some b0 -> py_int es = Some e0 ->
-  let b := clamp1 b0 in
-  (cstate s = ST_ACTIVE \/ cstate s = ST_AWAITING) ->
-  journal_ok s -> NoDup (map r_seq (rows s)) ->
-  k_unparsable (Some bs) (Some es) = false ->
-  k_begin_beyond s b = false -> k_bounded_end s b e0 = false ->
-  k_row_carries_possdup_tags f s b e0 = false -> k_hole_before_replayed f s b e0 = false ->
-  let s1 := fst (process_resend f (Some bs) (Some es) s) in
-  py_int bs2 = Some c0 -> py_int es2 = Some e2 ->
-  let b2 := clamp1 c0 in
-  k_unparsable (Some bs2) (Some es2) = false ->
-  k_begin_beyond s b2 = false -> k_bounded_end s b2 e2 = false ->
-  k_row_carries_possdup_tags f2 s b2 e2 = false -> k_hole_before_replayed f2 s b2 e2 = false ->
-  handler_correct f2 s1 (Some bs2) (Some es2).
-Proof.
-  intros Hpb Hpe b Hst Hj Hnd Hu Hk2 Hk3 Hk4 Hk5 s1 Hpb2 Hpe2 b2 Hu2 Hq2 Hq3 Hq4 Hq5.
-  destruct (resend_partial_classes f s bs es b0 e0 Hpb Hpe Hst Hj Hnd Hu Hk2 Hk3 Hk4 Hk5)
-    as (W & _ & _ & Hr & Hn & _ & Hc).
-  fold s1 in Hr, Hn, Hc.
-  apply (resend_partial_classes f2 s1 bs2 es2 c0 e2 Hpb2 Hpe2); try assumption.
-  - rewrite Hc. exact Hst.
-  - unfold journal_ok. rewrite Hr, Hn. exact Hj.
-  - rewrite Hr. exact Hnd.
-  - unfold k_begin_beyond in *. rewrite Hn. exact Hq2.
-  - unfold k_bounded_end in *. rewrite Hn. exact Hq3.
-  - unfold k_row_carries_possdup_tags in *. rewrite Hr. exact Hq4.
-  - unfold k_hole_before_replayed in *. rewrite Hr. exact Hq5.
+  intros Hnd Hl. apply asc_rows_ok; [apply recover_asc; exact Hnd|].
+  intros r Hr Hrep. apply in_recover in Hr as [Hin Hrg].
+  pose proof (existsb_false _ _ Hl r Hin) as H. cbn beta in H. rewrite Hrep in H.
+  unfold in_req_range in H. destruct (clean r); [reflexivity|]. cbn in H. lia.
 Qed.
 
 (* ------------------------------------------------------------------ pristine journals *)
@@ -658,28 +598,7 @@ Proof.
   rewrite (H _ Hin) in Hp. discriminate.
 Qed.
 
-Lemma pristine_partial f s bs es b0 :
-  py_int bs = Some b0 -> py_int es = Some 0 ->
-  (cstate s = ST_ACTIVE \/ cstate s = ST_AWAITING) -> pristine s -> b0 <= nout s ->
-  handler_correct f s (Some bs) (Some es).
-Proof.
-  intros Hpb Hpe Hst (Hc & Hcl & Hlen & Hmax) Hb0. rewrite Forall_forall in Hcl.
-  pose proof (contig_seqs _ _ Hc) as Hseqs.
-  assert (Hb : 1 <= clamp1 b0 <= nout s).
-  { unfold clamp1. destruct (b0 <? 1) eqn:E; [|lia]. pose proof (Zle_0_nat (length (rows s))). lia. }
-  apply (resend_partial_classes f s bs es b0 0 Hpb Hpe Hst).
-  - split; [|assumption]. apply Forall_forall. intros r Hr.
-    specialize (Hseqs _ Hr). destruct (Hcl _ Hr). split; [lia|assumption].
-  - exact (contig_nodup _ _ Hc).
-  - unfold k_unparsable. rewrite Hpb, Hpe.
-    replace (fits_int64 (clamp1 b0)) with true by (unfold fits_int64, INT64_MIN, INT64_MAX in *; lia). reflexivity.
-  - unfold k_begin_beyond. lia.
-  - reflexivity.
-  - apply existsb_all_false. intros r Hr. destruct (Hcl _ Hr) as [-> _]. cbn. apply andb_false_r.
-  - apply existsb_all_false. intros r Hr. specialize (Hseqs _ Hr).
-    destruct (clamp1 b0 <? r_seq r) eqn:E; [|rewrite andb_false_r; reflexivity].
-    rewrite (contig_has _ _ Hc) by lia. apply andb_false_r.
-Qed.
+
 
 (* rows written by send_msg are rows as the encoder writes them (the hypothesis codec_row of
    journal_ok / pristine is an invariant), and a frame with PossDupFlag=Y never reaches the journal *)
@@ -707,6 +626,7 @@ Proof.
     unfold codec_row. cbn [r_body]. apply forallb_filter.
 Qed.
 
+
 (* ------------------------------------------------------------------ what holds for EVERY request:
    no side effect on the journal or the counters, and which exceptions can leave the handler *)
 
@@ -724,10 +644,11 @@ Proof.
   set (s0 := note_call (r_seq r) s).
   assert (Hs0 : sending_ok s0) by exact Hs.
   destruct (f r); cbn [negb]; [|exact (IH gfb (r_seq r + 1) s0 Hs0)].
+  cbv zeta. set (gfe' := if gfb <? r_seq r then r_seq r else gfe).
   assert (Hstep : forall s1, sending_ok s1 -> untouched s s1 ->
             match (match mk_replay r with
                    | Some m => match send_msg m s1 with
-                               | Ok s2 => replay_loop f rest (r_seq r + 1) gfe s2
+                               | Ok s2 => replay_loop f rest (r_seq r + 1) gfe' s2
                                | Exc e s' => LExc e s'
                                end
                    | None => LExc EDuplicatedTag s1
@@ -740,8 +661,8 @@ Proof.
     match goal with |- context [replay_loop f rest ?a ?b ?s2] =>
       assert (Hs2 : sending_ok s2) by exact Hs1; specialize (IH a b s2 Hs2);
       destruct (replay_loop f rest a b s2) end; unfold untouched in *; cbn [cstate rows nout sout sent] in IH; intuition congruence. }
-  destruct (gfb <? gfe).
-  - rewrite (send_gap_fill gfb gfe s0 Hs0). apply Hstep; [exact Hs|unfold untouched; auto].
+  destruct (gfb <? gfe').
+  - rewrite (send_gap_fill gfb gfe' s0 Hs0). apply Hstep; [exact Hs|unfold untouched; auto].
   - apply Hstep; [exact Hs|unfold untouched; auto].
 Qed.
 
@@ -786,9 +707,10 @@ Proof.
   destruct (g2 <=? nout sa); cbn [negb].
   2:{ repeat split; auto; try exact I; rewrite Hc2; exact Ec. }
   assert (Hs2 : sending_ok s2) by (unfold sending_ok; rewrite Hc2; exact Hs).
-  assert (Htail : exists s3, (if g1 <? nout sa then send_msg (gap_fill_msg g1 (nout sa)) s2 else Ok s2) = Ok s3
+  cbv zeta. set (last := Z.min (nout sa) (e + 1)).
+  assert (Htail : exists s3, (if g1 <? last then send_msg (gap_fill_msg g1 last) s2 else Ok s2) = Ok s3
                              /\ untouched s2 s3).
-  { destruct (g1 <? nout sa).
+  { destruct (g1 <? last).
     - eexists. split; [apply send_gap_fill; exact Hs2|unfold untouched; auto].
     - exists s2. unfold untouched; auto. }
   destruct Htail as (s3 & -> & (Hc3 & Hr3 & Hn3 & Hso3)).
@@ -833,10 +755,11 @@ Proof.
   2:{ specialize (IH gfb (r_seq r + 1) s0 Hs0 Hlo Hrest).
       destruct (replay_loop f rest gfb (r_seq r + 1) s0); [destruct IH as [? IH]; split; [assumption|]|];
         exact (wext_trans _ _ _ _ Hw0 IH). }
+  cbv zeta. set (gfe' := if gfb <? r_seq r then r_seq r else gfe).
   assert (Hstep : forall s1, sending_ok s1 -> wext lo s s1 ->
             match (match mk_replay r with
                    | Some m => match send_msg m s1 with
-                               | Ok s2 => replay_loop f rest (r_seq r + 1) gfe s2
+                               | Ok s2 => replay_loop f rest (r_seq r + 1) gfe' s2
                                | Exc e s' => LExc e s'
                                end
                    | None => LExc EDuplicatedTag s1
@@ -852,8 +775,8 @@ Proof.
       specialize (IH a b (sent fr s1) Hs2 ltac:(lia) Hrest);
       destruct (replay_loop f rest a b (sent fr s1)) end;
       [destruct IH as [? IH]; split; [assumption|]|]; exact (wext_trans _ _ _ _ Hw2 IH). }
-  destruct (gfb <? gfe).
-  - rewrite (send_gap_fill gfb gfe s0 Hs0). apply Hstep; [exact Hs|].
+  destruct (gfb <? gfe').
+  - rewrite (send_gap_fill gfb gfe' s0 Hs0). apply Hstep; [exact Hs|].
     apply (wext_trans _ _ _ _ Hw0). apply wext_sent. exact Hlo.
   - apply Hstep; [exact Hs|exact Hw0].
 Qed.
@@ -884,9 +807,10 @@ Proof.
   destruct Hloop as [Hg1 Hw2]. destruct Hgen as (Hc2 & _).
   destruct (g2 <=? nout sa); cbn [negb fst]; [|exact (wext_trans _ _ _ _ Hw Hw2)].
   assert (Hs2 : sending_ok s2) by (unfold sending_ok; rewrite Hc2; exact Hs).
-  assert (Htail : exists s3, (if g1 <? nout sa then send_msg (gap_fill_msg g1 (nout sa)) s2 else Ok s2) = Ok s3
+  cbv zeta. set (last := Z.min (nout sa) (e + 1)).
+  assert (Htail : exists s3, (if g1 <? last then send_msg (gap_fill_msg g1 last) s2 else Ok s2) = Ok s3
                              /\ wext 1 s2 s3).
-  { destruct (g1 <? nout sa).
+  { destruct (g1 <? last).
     - eexists. split; [apply send_gap_fill; exact Hs2|apply wext_sent; exact Hg1].
     - exists s2. split; [reflexivity|apply wext_refl]. }
   destruct Htail as (s3 & -> & Hw3). cbn [fst].
@@ -1009,25 +933,24 @@ Proof.
 Qed.
 
 (* the partial theorem over ALL requests: readable or not, any BeginSeqNo (below 1, beyond the last
-   sent number, beyond 64 bits), with exactly the negated class predicates as hypotheses *)
+   sent number, beyond 64 bits), any EndSeqNo (0, bounded, below BeginSeqNo), journals with holes
+   anywhere - with exactly the two negated class predicates as hypotheses *)
 Lemma resend_partial_total f s bs es :
   (cstate s = ST_ACTIVE \/ cstate s = ST_AWAITING) ->
   journal_ok s -> NoDup (map r_seq (rows s)) ->
   in_class (k_end_beyond_64 s) bs es = false ->
-  in_class (k_bounded_end s) bs es = false ->
   in_class (k_row_carries_possdup_tags f s) bs es = false ->
-  in_class (k_hole_before_replayed f s) bs es = false ->
   resend_correct f s bs es.
 Proof.
-  intros Hst Hj Hnd H64 Hbd Hpd Hho. unfold in_class in *.
+  intros Hst Hj Hnd H64 Hpd. unfold in_class in *.
   destruct (parse_req bs es) as [[b e0]|] eqn:Hp; [|exact (unreadable_correct f s bs es Hst Hp)].
   unfold parse_req in Hp.
   destruct bs as [bs|]; [|discriminate]. destruct es as [es|]; [|discriminate].
   destruct (py_int bs) as [b0|] eqn:Eb; [|discriminate]. destruct (py_int es) as [e1|] eqn:Ee; [|discriminate].
-  injection Hp as Hb <-. 
+  injection Hp as Hb <-.
   assert (H1 : 1 <= b) by (subst b; unfold clamp1; destruct (b0 <? 1) eqn:E; lia).
   pose proof Hj as (HJ & Hmax). rewrite Forall_forall in HJ.
-  unfold k_end_beyond_64 in H64. unfold k_bounded_end in Hbd.
+  unfold k_end_beyond_64 in H64.
   (* what the property asks when nothing that was sent is requested *)
   assert (Htriv : nout s <= b \/ (e1 <> 0 /\ e1 < b) -> range_trivial s (Some bs) (Some es)).
   { intros Hc. unfold range_trivial, requested_range. rewrite Eb, Ee. cbv zeta. rewrite Hb.
@@ -1040,11 +963,11 @@ Proof.
   destruct (fits_int64 b && fits_int64 (eff_end e1)) eqn:Hfit.
   - apply andb_true_iff in Hfit as [Hfb Hfe].
     destruct (Z.leb_spec b (nout s)) as [Hle|Hgt].
-    + (* something may be asked for: the handler serves it *)
+    + (* the handler serves it *)
       apply (handler_correct_lift f s _ _ Hst).
-      apply (resend_partial f s bs es b0 b e1 Eb Hb Ee Hst Hj); try lia.
+      apply (resend_partial f s bs es b0 b e1 Eb Hb Ee Hst Hj Hle).
       * unfold eff_end in Hfe. destruct (e1 =? 0) eqn:E; [|exact Hfe]. replace e1 with 0 by lia. reflexivity.
-      * exact (classes_rows_ok f s b e1 Hnd Hpd Hho).
+      * exact (classes_rows_ok f s b e1 Hnd Hpd).
     + (* BeginSeqNo beyond next_num_out: the range query is empty, the assertion aborts *)
       apply (Hsa (Some EAssertion)); [|left; lia].
       unfold process_resend. rewrite Eb, Ee, Hb.
@@ -1098,12 +1021,10 @@ Lemma serve_repeatable f s bs es f2 bs2 es2 :
   journal_ok s -> NoDup (map r_seq (rows s)) ->
   let s1 := fst (serve_resend f bs es s) in
   in_class (k_end_beyond_64 s) bs2 es2 = false ->
-  in_class (k_bounded_end s) bs2 es2 = false ->
   in_class (k_row_carries_possdup_tags f2 s) bs2 es2 = false ->
-  in_class (k_hole_before_replayed f2 s) bs2 es2 = false ->
   resend_correct f2 s1 bs2 es2.
 Proof.
-  intros Hst Hj Hnd s1 H1 H2 H3 H4.
+  intros Hst Hj Hnd s1 H1 H3.
   pose proof (serve_general f s bs es) as H. pose proof (serve_state_restored f s bs es Hst) as Hc.
   fold s1 in Hc. destruct (serve_resend f bs es s) as [s' x] eqn:E. cbn [fst] in s1. subst s1.
   destruct H as (Hr & Hn & _).
@@ -1112,29 +1033,22 @@ Proof.
   - unfold journal_ok. rewrite Hr, Hn. exact Hj.
   - rewrite Hr. exact Hnd.
   - unfold in_class, k_end_beyond_64 in *. rewrite Hn. exact H1.
-  - unfold in_class, k_bounded_end in *. rewrite Hn. exact H2.
   - unfold in_class, k_row_carries_possdup_tags in *. rewrite Hr. exact H3.
-  - unfold in_class, k_hole_before_replayed in *. rewrite Hr. exact H4.
 Qed.
 
-Lemma pristine_total f s bs es b0 :
-  py_int bs = Some b0 -> py_int es = Some 0 ->
+Lemma pristine_total f s bs es b0 e0 :
+  py_int bs = Some b0 -> py_int es = Some e0 -> e0 <= INT64_MAX ->
   (cstate s = ST_ACTIVE \/ cstate s = ST_AWAITING) -> pristine s ->
   resend_correct f s (Some bs) (Some es).
 Proof.
-  intros Hpb Hpe Hst (Hc & Hcl & Hlen & Hmax). rewrite Forall_forall in Hcl.
+  intros Hpb Hpe He Hst (Hc & Hcl & Hlen & Hmax). rewrite Forall_forall in Hcl.
   pose proof (contig_seqs _ _ Hc) as Hseqs.
   apply resend_partial_total; try assumption; unfold in_class, parse_req; rewrite ?Hpb, ?Hpe.
   - split; [|assumption]. apply Forall_forall. intros r Hr.
     specialize (Hseqs _ Hr). destruct (Hcl _ Hr). split; [lia|assumption].
   - exact (contig_nodup _ _ Hc).
-  - reflexivity.
-  - reflexivity.
+  - unfold k_end_beyond_64. destruct (INT64_MAX <? e0) eqn:E; [lia|reflexivity].
   - apply existsb_all_false. intros r Hr. destruct (Hcl _ Hr) as [-> _]. cbn. apply andb_false_r.
-  - assert (H1 : 1 <= clamp1 b0) by (unfold clamp1; destruct (b0 <? 1) eqn:E; lia).
-    apply existsb_all_false. intros r Hr. specialize (Hseqs _ Hr).
-    destruct (clamp1 b0 <? r_seq r) eqn:E; [|rewrite andb_false_r; reflexivity].
-    rewrite (contig_has _ _ Hc) by lia. apply andb_false_r.
 Qed.
 
 (* BeginSeqNo <= 0 is served exactly like BeginSeqNo = 1 *)
@@ -1165,45 +1079,66 @@ Definition w_hb (n : Z) : row := mkRow n [48%N] (time_str n) [].
 Definition w_state (st0 nxt : Z) (rs : list row) : st := mkSt st0 false false nxt (nxt - 1) (nxt - 1) rs [] [] [].
 Definition w_all (r : row) : bool := true.
 
-(* the four class predicates of a request, as a tuple *)
+(* the two class predicates of a request, as a pair *)
 Definition classes_of (f : row -> bool) (s : st) (bs es : option str) :=
-  (in_class (k_end_beyond_64 s) bs es, in_class (k_bounded_end s) bs es,
-   in_class (k_row_carries_possdup_tags f s) bs es, in_class (k_hole_before_replayed f s) bs es).
-
-Lemma chain_cons_inv J f lim a c fr rest : chain J f lim a c (fr :: rest) ->
-  r_seq fr = a /\ ((exists r, is_copy_of r fr /\ chain J f lim (a + 1) c rest)
-                   \/ (exists h, is_gap_fill fr a h /\ chain J f lim h c rest)).
-Proof.
-  inversion 1; subst.
-  - match goal with H : is_copy_of _ _ |- _ => pose proof H as (E & _) end. split; [lia|]. left. eauto.
-  - match goal with H : is_gap_fill _ _ _ |- _ => pose proof H as (E & _) end. split; [lia|]. right. eauto.
-Qed.
+  (in_class (k_end_beyond_64 s) bs es, in_class (k_row_carries_possdup_tags f s) bs es).
 
 Lemma chain_nil_inv J f lim a c : chain J f lim a c [] -> a = c.
 Proof. inversion 1; reflexivity. Qed.
 
 Ltac prove_pristine := unfold pristine; repeat split; try (vm_compute; congruence); repeat constructor.
 Ltac prove_journal_ok := unfold journal_ok; repeat split; try (vm_compute; congruence); repeat constructor; vm_compute; congruence.
+Ltac prove_nodup := vm_compute; repeat constructor; cbn; intuition congruence.
 
-(* bounded EndSeqNo: [Logon, D2, D3, D4], next 5, ResendRequest(2, 2): D2 is retransmitted, then
-   GapFill(3 -> 5) - numbers 3 and 4 were not asked for *)
+(* bounded EndSeqNo (was C06-bounded-end): [Logon, D2, D3, D4], next 5, ResendRequest(2, 2) -> D2 only;
+   ResendRequest(2, 3) over [Logon, D2, HB3, D4] -> D2, GapFill(3 -> 4) *)
 Definition w_bounded := w_state ST_ACTIVE 5 [w_logon; w_app 2; w_app 3; w_app 4].
-Lemma bounded_end_refuted :
-  pristine w_bounded
-  /\ classes_of w_all w_bounded (dec 2) (dec 2) = (false, true, false, false)
-  /\ ~ resend_correct w_all w_bounded (dec 2) (dec 2)
-  /\ (let (s', x) := serve_resend w_all (dec 2) (dec 2) w_bounded in
-      x = None /\ map r_seq (wire s') = [2; 3]
-      /\ map (fun r => get_tag T_NewSeqNo (r_body r)) (wire s') = [None; Some [53%N]]).
+Definition w_bounded2 := w_state ST_ACTIVE 5 [w_logon; w_app 2; w_hb 3; w_app 4].
+Lemma bounded_end_ok :
+  resend_correct w_all w_bounded (dec 2) (dec 2) /\ resend_correct w_all w_bounded2 (dec 2) (dec 3)
+  /\ map r_seq (wire (fst (serve_resend w_all (dec 2) (dec 2) w_bounded))) = [2]
+  /\ (let s' := fst (serve_resend w_all (dec 2) (dec 3) w_bounded2) in
+      map r_seq (wire s') = [2; 3] /\ map (fun r => get_tag T_NewSeqNo (r_body r)) (wire s') = [None; Some [52%N]]).
 Proof.
-  split; [prove_pristine|]. split; [vm_compute; reflexivity|]. split.
-  - intros (W & Hw & Hr & _).
-    assert (E : requested_range w_bounded (dec 2) (dec 2) = Some (2, 3)) by (vm_compute; reflexivity).
-    rewrite E in Hr. vm_compute in Hw. subst W.
-    apply chain_cons_inv in Hr as (_ & [(r & _ & Hch)|(h & (_ & Ht & _) & _)]).
-    + apply chain_empty in Hch. discriminate.
-    + vm_compute in Ht. discriminate.
-  - vm_compute. repeat split; reflexivity.
+  assert (Hp : pristine w_bounded) by prove_pristine.
+  assert (Hp2 : pristine w_bounded2) by prove_pristine.
+  split; [apply (pristine_total w_all w_bounded _ _ 2 2); try reflexivity; [vm_compute; congruence|left; reflexivity|exact Hp]|].
+  split; [apply (pristine_total w_all w_bounded2 _ _ 2 3); try reflexivity; [vm_compute; congruence|left; reflexivity|exact Hp2]|].
+  vm_compute. repeat split; reflexivity.
+Qed.
+
+(* holes (was C06-hole-before-replayed, D21): rows {1, 2, 4, 5}, next 6, ResendRequest(2, 0) ->
+   D2, GapFill(3 -> 4), D4, D5 *)
+Definition w_hole := w_state ST_ACTIVE 6 [w_logon; w_app 2; w_app 4; w_app 5].
+Lemma hole_ok :
+  resend_correct w_all w_hole (dec 2) (dec 0)
+  /\ (let s' := fst (serve_resend w_all (dec 2) (dec 0) w_hole) in
+      map r_seq (wire s') = [2; 3; 4; 5]
+      /\ map (fun r => get_tag T_NewSeqNo (r_body r)) (wire s') = [None; Some [52%N]; None; None]).
+Proof.
+  split; [|vm_compute; repeat split; reflexivity].
+  apply resend_partial_total; [left; reflexivity|prove_journal_ok|prove_nodup|vm_compute; reflexivity|vm_compute; reflexivity].
+Qed.
+
+(* holes, session rows, a declining filter and a bounded EndSeqNo together:
+   rows {1 Logon, 2 D, 5 D, 6 HB, 9 D(declined), 10 D}, next 13, ResendRequest(2, 10) ->
+   D2, GapFill(3 -> 5), D5, GapFill(6 -> 10), D10;  ResendRequest(3, 8) -> GapFill(3 -> 5), D5, GapFill(6 -> 9) *)
+Definition w_filter9 (r : row) : bool := negb (r_seq r =? 9).
+Definition w_gappy := w_state ST_ACTIVE 13 [w_logon; w_app 2; w_app 5; w_hb 6; w_app 9; w_app 10].
+Lemma holes_and_bounded_end_ok :
+  resend_correct w_filter9 w_gappy (dec 2) (dec 10) /\ resend_correct w_filter9 w_gappy (dec 3) (dec 8)
+  /\ (let s' := fst (serve_resend w_filter9 (dec 2) (dec 10) w_gappy) in
+      map r_seq (wire s') = [2; 3; 5; 6; 10]
+      /\ map (fun r => get_tag T_NewSeqNo (r_body r)) (wire s') = [None; Some [53%N]; None; Some [49; 48]%N; None])
+  /\ (let s' := fst (serve_resend w_filter9 (dec 3) (dec 8) w_gappy) in
+      map r_seq (wire s') = [3; 5; 6]
+      /\ map (fun r => get_tag T_NewSeqNo (r_body r)) (wire s') = [Some [53%N]; None; Some [57%N]]).
+Proof.
+  assert (Hj : journal_ok w_gappy) by prove_journal_ok.
+  assert (Hn : NoDup (map r_seq (rows w_gappy))) by prove_nodup.
+  split; [apply resend_partial_total; [left; reflexivity|exact Hj|exact Hn|vm_compute; reflexivity|vm_compute; reflexivity]|].
+  split; [apply resend_partial_total; [left; reflexivity|exact Hj|exact Hn|vm_compute; reflexivity|vm_compute; reflexivity]|].
+  vm_compute. repeat split; reflexivity.
 Qed.
 
 (* a second request over an already replayed range is answered like the first *)
@@ -1218,13 +1153,13 @@ Proof.
   assert (Hp : pristine w_first) by prove_pristine.
   assert (Hp2 : pristine w_second) by prove_pristine.
   split; [exact Hp|]. split.
-  { apply (pristine_total w_all w_first _ _ 2); try reflexivity; [left; reflexivity|exact Hp]. }
+  { apply (pristine_total w_all w_first _ _ 2 0); try reflexivity; [vm_compute; congruence|left; reflexivity|exact Hp]. }
   split; [reflexivity|]. split; [reflexivity|]. split; [|vm_compute; reflexivity].
-  apply (pristine_total w_all w_second _ _ 2); try reflexivity; [left; reflexivity|exact Hp2].
+  apply (pristine_total w_all w_second _ _ 2 0); try reflexivity; [vm_compute; congruence|left; reflexivity|exact Hp2].
 Qed.
 
 (* requests that ask for nothing that was sent, or cannot be read: nothing is written, nothing changes,
-   the state is ACTIVE again although the handler aborted (were C06-begin-beyond, C06-request-unparsable) *)
+   the state is ACTIVE again although the handler aborted *)
 Definition w_small := w_state ST_ACTIVE 3 [w_logon; w_app 2].
 Lemma unanswerable_requests_ok :
   resend_correct w_all w_small (dec 5) (dec 0)
@@ -1236,7 +1171,7 @@ Lemma unanswerable_requests_ok :
      = (mkSt ST_ACTIVE false false 3 2 2 (rows w_small) [] [] [ST_HANDLING; ST_ACTIVE], Some EValue).
 Proof.
   assert (Hp : pristine w_small) by prove_pristine.
-  split; [apply (pristine_total w_all w_small _ _ 5); try reflexivity; [left; reflexivity|exact Hp]|].
+  split; [apply (pristine_total w_all w_small _ _ 5 0); try reflexivity; [vm_compute; congruence|left; reflexivity|exact Hp]|].
   split; [apply unreadable_correct; [left; reflexivity|reflexivity]|].
   split; [apply unreadable_correct; [left; reflexivity|reflexivity]|].
   split; vm_compute; reflexivity.
@@ -1251,8 +1186,8 @@ Lemma begin_nonpositive_example :
 Proof.
   assert (Hp : pristine w_small) by prove_pristine.
   split; [|split].
-  - apply (pristine_total w_all w_small _ _ 0); try reflexivity; [left; reflexivity|exact Hp].
-  - apply (pristine_total w_all w_small _ _ (-3)); try reflexivity; [left; reflexivity|exact Hp].
+  - apply (pristine_total w_all w_small _ _ 0 0); try reflexivity; [vm_compute; congruence|left; reflexivity|exact Hp].
+  - apply (pristine_total w_all w_small _ _ (-3) 0); try reflexivity; [vm_compute; congruence|left; reflexivity|exact Hp].
   - vm_compute. repeat split; reflexivity.
 Qed.
 
@@ -1260,7 +1195,7 @@ Qed.
 Definition two63 : Z := 9223372036854775808.
 Lemma end_beyond_64_refuted :
   pristine w_small
-  /\ classes_of w_all w_small (dec 2) (dec two63) = (true, false, false, false)
+  /\ classes_of w_all w_small (dec 2) (dec two63) = (true, false)
   /\ ~ resend_correct w_all w_small (dec 2) (dec two63)
   /\ (let (s', x) := serve_resend w_all (dec 2) (dec two63) w_small in
       x = Some EOverflow /\ wire s' = [] /\ cstate s' = ST_ACTIVE).
@@ -1272,40 +1207,18 @@ Proof.
   - vm_compute. repeat split; reflexivity.
 Qed.
 
-(* D21: rows {1, 2, 4, 5}, next 6, ResendRequest(2, 0): the reply is 2, 4, 5 - number 3 is never covered *)
-Definition w_hole := w_state ST_ACTIVE 6 [w_logon; w_app 2; w_app 4; w_app 5].
-Lemma hole_refuted :
-  journal_ok w_hole /\ NoDup (map r_seq (rows w_hole))
-  /\ classes_of w_all w_hole (dec 2) (dec 0) = (false, false, false, true)
-  /\ ~ resend_correct w_all w_hole (dec 2) (dec 0)
-  /\ (let (s', x) := serve_resend w_all (dec 2) (dec 0) w_hole in
-      x = None /\ map r_seq (wire s') = [2; 4; 5] /\ map r_type (wire s') = [[68%N]; [68%N]; [68%N]]).
-Proof.
-  split; [prove_journal_ok|].
-  split. { vm_compute. repeat constructor; cbn; intuition congruence. }
-  split; [vm_compute; reflexivity|]. split.
-  - intros (W & Hw & Hr & _).
-    assert (E : requested_range w_hole (dec 2) (dec 0) = Some (2, 6)) by (vm_compute; reflexivity).
-    rewrite E in Hr. vm_compute in Hw. subst W.
-    apply chain_cons_inv in Hr as (_ & [(r & _ & Hch)|(h & (_ & Ht & _) & _)]).
-    + apply chain_cons_inv in Hch as (Hseq & _). vm_compute in Hseq. discriminate.
-    + vm_compute in Ht. discriminate.
-  - vm_compute. repeat split; reflexivity.
-Qed.
-
 (* an application message journaled with PossDupFlag=N in its body cannot be retransmitted
    (DuplicatedTagError): the request for it gets no answer; the state is ACTIVE again *)
 Definition w_tagged := w_state ST_ACTIVE 3
   [w_logon; mkRow 2 [68%N] (time_str 2) [([49; 49]%N, [99; 50]%N); (T_PossDupFlag, V_N)]].
 Lemma possdup_tag_refuted :
   journal_ok w_tagged /\ NoDup (map r_seq (rows w_tagged))
-  /\ classes_of w_all w_tagged (dec 2) (dec 0) = (false, false, true, false)
+  /\ classes_of w_all w_tagged (dec 2) (dec 0) = (false, true)
   /\ ~ resend_correct w_all w_tagged (dec 2) (dec 0)
   /\ (let (s', x) := serve_resend w_all (dec 2) (dec 0) w_tagged in
       x = Some EDuplicatedTag /\ wire s' = [] /\ cstate s' = ST_ACTIVE).
 Proof.
-  split; [prove_journal_ok|].
-  split. { vm_compute. repeat constructor; cbn; intuition congruence. }
+  split; [prove_journal_ok|]. split; [prove_nodup|].
   split; [vm_compute; reflexivity|]. split.
   - intros (W & Hw & Hr & _).
     assert (E : requested_range w_tagged (dec 2) (dec 0) = Some (2, 3)) by (vm_compute; reflexivity).
@@ -1318,13 +1231,12 @@ Definition w_filter (r : row) : bool := negb (r_seq r =? 6).
 Definition w_rich := w_state ST_AWAITING 9 [w_logon; w_app 2; w_hb 3; mkRow 4 MT_SEQUENCERESET (time_str 4) [(T_NewSeqNo, [53%N])]; w_app 5; w_app 6; w_hb 7].
 Lemma nonvacuous :
   journal_ok w_rich /\ NoDup (map r_seq (rows w_rich)) /\ cstate w_rich = ST_AWAITING
-  /\ classes_of w_filter w_rich (dec 2) (dec 0) = (false, false, false, false)
+  /\ classes_of w_filter w_rich (dec 2) (dec 0) = (false, false)
   /\ (let s' := fst (serve_resend w_filter (dec 2) (dec 0) w_rich) in
       map r_seq (wire s') = [2; 3; 5; 6] /\ map r_type (wire s') = [[68%N]; MT_SEQUENCERESET; [68%N]; MT_SEQUENCERESET]
       /\ map (fun r => get_tag T_NewSeqNo (r_body r)) (wire s') = [None; Some [53%N]; None; Some [57%N]]
       /\ rows s' = rows w_rich /\ nout s' = 9 /\ cstate s' = ST_AWAITING).
 Proof.
-  split; [prove_journal_ok|].
-  split. { vm_compute. repeat constructor; cbn; intuition congruence. }
+  split; [prove_journal_ok|]. split; [prove_nodup|].
   split; [reflexivity|]. split; [vm_compute; reflexivity|]. vm_compute. repeat split; reflexivity.
 Qed.
